@@ -281,8 +281,16 @@ func genC10(g *gen) {
 					if g.r.chance(1, 4) {
 						rl = g.r.pick([]string{"lazyT", "sliced", "rowsl", "mat"})
 					}
+					src := g.r.pick([]string{"contig", "contig", "mat", "sliced", "lazyT"})
+					if asmLayouts[0] == "colmajor" {
+						// the column-major run (C16): destinations and sources of either data order, independently
+						rl = g.r.pick([]string{"colmajor", "colmajor", "colconv", "contig"})
+						src = g.r.pick([]string{"contig", "contig", "colmajor", "sliced", "lazyT"})
+					} else if rep == 1 && g.r.chance(1, 3) {
+						rl = "colmajor"
+					}
 					k++
-					g.asmRepeatProgram("fn", g.asmDtype(k), sh, g.r.pick([]string{"contig", "contig", "mat", "sliced", "lazyT"}), axisTok, reps, "reuse", rs, rl)
+					g.asmRepeatProgram("fn", g.asmDtype(k), sh, src, axisTok, reps, "reuse", rs, rl)
 				}
 				wrong := append([]int{}, asmRepeatedShape(sh, axis, []int{2})...)
 				wrong[0]++
